@@ -608,7 +608,10 @@ def stream_download(ctx, n):
         r = rng.random()
         closing = rng.choice([b'226 done\r\n', b'226 done\r\n', b'226-a\r\n226 b\r\n', b'226-Sent\r\n2260 of 5000 bytes\r\n226 ok\r\n', b'426 aborted\r\n',
                               b'426-Connection closed\r\n 226 blocks\r\n426 aborted\r\n', b'', b'226 done', b'226 done\r', b'550 no\r\n', b'150 again\r\n226 x\r\n',
-                              b'226-x\x0c226 y\r\n426 no\r\n'])
+                              b'226-x\x0c226 y\r\n426 no\r\n',
+                              # positive replies that are not the confirmation of a transfer
+                              b'221 Service closing control connection\r\n', b'225 Data connection open; no transfer in progress\r\n',
+                              b'200 ok\r\n', b'230 logged in\r\n', b'250 done\r\n', b'250-a\r\n250 226\r\n', b'227 x\r\n'])
         plans.append({'listing': listing, 'mlsd': rng.random() < 0.7,
                       'dsegs': fakenet.segment(data, fakenet.random_cuts(rng, len(data))),
                       'end': True if r < 0.65 else 'reset' if r < 0.85 else False,
@@ -1132,7 +1135,8 @@ def run(ctx):
     for _ in range(ctx.scale(150, 3000)):
         data = bytes(rng.randrange(256) for _ in range(rng.choice([0, 1, 5, 40, 5000])))
         dsegs = fakenet.segment(data, fakenet.random_cuts(rng, len(data)))
-        ctrl = rng.choice([b'226 done\r\n', b'226-a\r\n226 b\r\n', b'426 aborted\r\n', b'', b'226 done', b'150 x\r\n', b'550 no\r\n', b'226 done\r', b'226-a\r\n226 b\r', b'226-a\r', b'22', b'226 done\n'])
+        ctrl = rng.choice([b'226 done\r\n', b'226-a\r\n226 b\r\n', b'426 aborted\r\n', b'', b'226 done', b'150 x\r\n', b'550 no\r\n', b'226 done\r', b'226-a\r\n226 b\r', b'226-a\r', b'22', b'226 done\n',
+                           b'221 bye\r\n', b'225 open\r\n', b'200 ok\r\n', b'230 in\r\n', b'250 done\r\n', b'250-a\r\n250 226 b\r\n'])
         csegs = fakenet.segment(ctrl, fakenet.random_cuts(rng, len(ctrl)))
         r = rng.random()
         tcases.append((dsegs, True if r < 0.65 else 'reset' if r < 0.85 else False, csegs))   # closed / RST / never closed
